@@ -94,11 +94,14 @@ def run(ctx):
                "target: the advertised RDLENGTH differs from the octets written" % (adt.split("::")[-1], names), where=rb.where())
     rule_fwd(ctx, F)
     rule_conv(ctx, F)
+    rule_optlen(ctx, F)
     # the reader of a variable-layout field accepts exactly what its writer can produce (shared rules)
     import c01
     import c11
     c01.rule_window(ctx, F)     # NSEC/NSEC3 type bitmap: every window of 1..=32 bitmap octets, nothing else
     c11.rule_time48(ctx, F)     # TSIG 48-bit times: into_octets and from_slice use the same bit layout
+    import c04
+    c04.rule_fold(ctx, F)       # the canonical form lower-cases exactly the ASCII letters (Label::compose_canonical)
     import c13
     c13.rule_split(ctx, F)      # type bitmap: window / octet / bit of a type number (RFC 4034 4.1.2)
 
@@ -679,4 +682,44 @@ def rule_conv(ctx, F):
                        "%s builds field `%s` of the converted value from field(s) %s of the source: the conversion changes the "
                        "value (two fields of the same type swapped or one used twice) although it should only change the octets / "
                        "name type" % (p, dst, sorted(srcs)), b.where(bi))
+    ctx.call_sites += n
+
+
+def rule_optlen(ctx, F):
+    """EDNS option parts announce what they write: where a type's `compose` appends octets it holds (a slice of one of
+    its fields), its `compose_len` is computed from the length of that field -- a constant stands for one size only
+    (a 16-octet server cookie) while the type admits others (8..=32), and the OPTION-LENGTH written in front then
+    differs from the octets that follow."""
+    R = "C05.optlen"
+    ctx.floor(R, 1)
+    n = 0
+    for p, lb in sorted(F.bodies.items()):
+        m = re.match(r"^(base::opt::[\w:]+?(::<[^>]*>)?)::compose_len$", p)
+        if not m or "::test" in p:
+            continue
+        cb = F.bodies.get(m.group(1) + "::compose") or next((b for q, b in F.bodies.items() if q.startswith(m.group(1) + "::compose::<")), None)
+        if cb is None:
+            continue
+        fields = set()
+        for bb, t in cb.calls():
+            if re.search(r"OctetsBuilder::append_slice$", t["fn"] or "") and len(t["args"]) >= 2:
+                tm = deep_strip(cb.term_of_operand(t["args"][1]))
+                for s_ in walk(tm):
+                    if s_[0] == "field" and deep_strip(s_[1]) in (("arg", 1), ("deref", ("arg", 1))):
+                        fields.add(str(s_[2]))
+        if not fields:
+            continue
+        n += 1
+        rets = [deep_strip(t) for _, _, _, t in return_assignments(lb) if t is not None]
+        calls = [deep_strip(lb.term_of_operand(a)) for _, t in lb.calls() if re.search(r"::len$", t["fn"] or "") for a in t["args"][:1]]
+        measured = set()
+        for tm in rets + calls:
+            for s_ in walk(tm):
+                if s_[0] == "field" and deep_strip(s_[1]) in (("arg", 1), ("deref", ("arg", 1))):
+                    measured.add(str(s_[2]))
+        ctx.ob(R, lb, "compose_len measures what compose writes", fields <= measured,
+               "%s::compose appends its field(s) %s but compose_len does not look at %s: for values of another size the length "
+               "announced in front of the option differs from the octets written (an 8-octet server cookie makes the OPT record "
+               "unparsable, a 32-octet one leaves 16 octets to be read as a further option)"
+               % (m.group(1).split("::")[-1], sorted(fields), sorted(fields - measured)), lb.where())
     ctx.call_sites += n
